@@ -561,7 +561,7 @@ Qed.
 Definition leE (a b : term) : Prop := E a <= E b.
 Definition ltE (a b : term) : Prop := E a < E b.
 
-Lemma insert_sorted t : forall l, StronglySorted leE l -> StronglySorted leE (insert_by_exponent t l).
+Lemma insertE_sorted t : forall l, StronglySorted leE l -> StronglySorted leE (insert_by_exponent t l).
 Proof.
   induction l as [|u r IH]; intros H; cbn [insert_by_exponent].
   - repeat constructor.
@@ -575,7 +575,7 @@ Qed.
 Lemma sort_sorted : forall l, StronglySorted leE (sort_by_exponent l).
 Proof.
   induction l as [|t r IH]; cbn [sort_by_exponent fold_right]; [constructor|].
-  apply insert_sorted. exact IH.
+  apply insertE_sorted. exact IH.
 Qed.
 
 (* a symmetric pairwise relation does not care about the order of the list *)
@@ -809,3 +809,259 @@ Proof.
   - exact (runlength_ok T x).
   - exact (hybrid_ok K T x H).
 Qed.
+
+(* ------------------------------------------------------------------ *)
+(* Dictionary: bigints.Sort then bigints.Unique of the D values        *)
+(* ------------------------------------------------------------------ *)
+
+Lemma zinsert_perm x : forall l, Permutation (x :: l) (insert_sorted x l).
+Proof.
+  induction l as [|y r IH]; cbn [insert_sorted]; [reflexivity|].
+  destruct (x <=? y)%Z; [reflexivity|].
+  etransitivity; [apply perm_swap|]. now apply perm_skip.
+Qed.
+
+Lemma zsort_perm : forall l, Permutation l (sort l).
+Proof.
+  induction l as [|x r IH]; cbn [sort fold_right]; [constructor|].
+  etransitivity; [apply perm_skip, IH|]. apply zinsert_perm.
+Qed.
+
+Lemma zinsert_sorted x : forall l, StronglySorted Z.le l -> StronglySorted Z.le (insert_sorted x l).
+Proof.
+  induction l as [|y r IH]; intros H; cbn [insert_sorted].
+  - repeat constructor.
+  - inversion H as [|? ? Hr Hy]; subst. destruct (x <=? y)%Z eqn:C.
+    + constructor; [exact H|]. constructor; [lia|].
+      eapply Forall_impl; [|exact Hy]. intros; lia.
+    + constructor; [now apply IH|].
+      eapply Permutation_Forall; [apply zinsert_perm|]. constructor; [lia|exact Hy].
+Qed.
+
+Lemma zsort_sorted : forall l, StronglySorted Z.le (sort l).
+Proof.
+  induction l as [|x r IH]; cbn [sort fold_right]; [constructor|]. now apply zinsert_sorted.
+Qed.
+
+Lemma unique_from_in last : forall xs x, In x (unique_from last xs) -> In x xs.
+Proof.
+  intros xs. revert last. induction xs as [|y r IH]; intros last x H; cbn [unique_from] in H; [exact H|].
+  destruct (y =? last)%Z.
+  - right. eapply IH. exact H.
+  - destruct H as [H|H]; [now left|right; eapply IH; exact H].
+Qed.
+
+Lemma in_unique_from : forall xs last x, In x xs -> x = last \/ In x (unique_from last xs).
+Proof.
+  induction xs as [|y r IH]; intros last x H; [destruct H|]. cbn [unique_from].
+  destruct (y =? last)%Z eqn:C.
+  - destruct H as [H|H]; [left; lia|]. now apply IH.
+  - destruct H as [H|H]; [right; now left|].
+    destruct (IH y x H) as [G|G]; right; [left; now symmetry|now right].
+Qed.
+
+Lemma unique_in xs x : In x (unique xs) <-> In x xs.
+Proof.
+  destruct xs as [|y r]; cbn [unique]; [tauto|]. split.
+  - intros [H|H]; [now left|right; eapply unique_from_in; exact H].
+  - intros [H|H]; [now left|]. destruct (in_unique_from r y x H) as [G|G]; [left; now symmetry|now right].
+Qed.
+
+Lemma unique_from_sorted : forall xs last, StronglySorted Z.le xs -> Forall (Z.le last) xs ->
+  StronglySorted Z.lt (unique_from last xs) /\ Forall (Z.lt last) (unique_from last xs).
+Proof.
+  induction xs as [|y r IH]; intros last Hs Hl; cbn [unique_from]; [split; constructor|].
+  inversion Hs as [|? ? Hr Hy]; subst. inversion Hl as [|? ? L1 L2]; subst.
+  destruct (y =? last)%Z eqn:C.
+  - apply IH; assumption.
+  - destruct (IH y Hr Hy) as (A & B). split.
+    + constructor; assumption.
+    + constructor; [lia|]. eapply Forall_impl; [|exact B]. intros; lia.
+Qed.
+
+Lemma unique_sorted xs : StronglySorted Z.le xs -> StronglySorted Z.lt (unique xs).
+Proof.
+  destruct xs as [|y r]; cbn [unique]; [constructor|]. intros H.
+  inversion H as [|? ? Hr Hy]; subst. destruct (unique_from_sorted r y Hr Hy) as (A & B).
+  constructor; assumption.
+Qed.
+
+Lemma map_to_N_sorted : forall l, Forall (Z.le 0) l -> StronglySorted Z.lt l ->
+  StronglySorted N.lt (map Z.to_N l).
+Proof.
+  induction l as [|a r IH]; intros Hp Hs; cbn [map]; [constructor|].
+  inversion Hp as [|? ? Pa Pr]; subst. inversion Hs as [|? ? Sr Sa]; subst.
+  constructor; [now apply IH|]. apply Forall_forall. intros b Hb.
+  apply in_map_iff in Hb. destruct Hb as (z & <- & Hz).
+  rewrite Forall_forall in Sa, Pr. specialize (Sa z Hz). specialize (Pr z Hz). lia.
+Qed.
+
+(* the dictionary is the strictly increasing list of exactly the D values of the sum *)
+Theorem dictionary_spec s :
+  StronglySorted N.lt (dictionary s) /\
+  forall d, In d (dictionary s) <-> exists t, In t s /\ D t = d.
+Proof.
+  unfold dictionary. set (ds := map (fun t => Z.of_N (D t)) s).
+  assert (Hin : forall z, In z (unique (sort ds)) <-> In z ds).
+  { intros z. rewrite unique_in. split; intros H.
+    - eapply Permutation_in; [symmetry; apply zsort_perm|exact H].
+    - eapply Permutation_in; [apply zsort_perm|exact H]. }
+  split.
+  - apply map_to_N_sorted.
+    + apply Forall_forall. intros z Hz. apply Hin in Hz. unfold ds in Hz.
+      apply in_map_iff in Hz. destruct Hz as (t & <- & _). lia.
+    + apply unique_sorted, zsort_sorted.
+  - intros d. rewrite in_map_iff. split.
+    + intros (z & <- & Hz). apply Hin in Hz. unfold ds in Hz. apply in_map_iff in Hz.
+      destruct Hz as (t & <- & Ht). exists t. split; [exact Ht|]. now rewrite N2Z.id.
+    + intros (t & Ht & <-). exists (Z.of_N (D t)). split; [apply N2Z.id|].
+      apply Hin. unfold ds. apply in_map_iff. exists t. split; [reflexivity|exact Ht].
+Qed.
+
+(* ------------------------------------------------------------------ *)
+(* Why insertion models sort.Slice here: with pairwise distinct        *)
+(* exponents the ascending arrangement is unique                       *)
+(* ------------------------------------------------------------------ *)
+
+Lemma ltE_head_unique a l b l' :
+  StronglySorted ltE (a :: l) -> StronglySorted ltE (b :: l') -> Permutation (a :: l) (b :: l') -> a = b.
+Proof.
+  intros H1 H2 Hp. inversion H1 as [|? ? S1 F1]; subst. inversion H2 as [|? ? S2 F2]; subst.
+  assert (Ia : In a (b :: l')) by (eapply Permutation_in; [exact Hp|now left]).
+  assert (Ib : In b (a :: l)) by (eapply Permutation_in; [symmetry; exact Hp|now left]).
+  destruct Ia as [Ia|Ia]; [now symmetry|]. destruct Ib as [Ib|Ib]; [exact Ib|]. exfalso.
+  rewrite Forall_forall in F1, F2. specialize (F1 b Ib). specialize (F2 a Ia). unfold ltE in *. lia.
+Qed.
+
+Theorem sorted_unique : forall l l', StronglySorted ltE l -> StronglySorted ltE l' -> Permutation l l' -> l = l'.
+Proof.
+  induction l as [|a r IH]; intros l' H1 H2 Hp.
+  - apply Permutation_nil in Hp. now symmetry.
+  - destruct l' as [|b r']; [apply Permutation_sym, Permutation_nil in Hp; discriminate|].
+    pose proof (ltE_head_unique _ _ _ _ H1 H2 Hp) as ->. f_equal.
+    inversion H1; subst. inversion H2; subst. apply IH; try assumption.
+    eapply Permutation_cons_inv. exact Hp.
+Qed.
+
+(* any E-ascending rearrangement of the raw terms (what sort.Slice returns) is the model's list *)
+Corollary sort_slice_unique P x s s' : sum_ok P x s -> Permutation s s' -> StronglySorted ltE s' -> s' = s.
+Proof. intros [_ H _ _ _] Hp H'. symmetry. now apply sorted_unique. Qed.
+
+(* ------------------------------------------------------------------ *)
+(* K = 0: FixedWindow and SlidingWindow never return                   *)
+(* ------------------------------------------------------------------ *)
+
+Lemma fixed_loop_K0 x : forall fuel h, (0 < h)%Z -> fixed_loop fuel x 0 h = OutOfFuel.
+Proof.
+  induction fuel as [|f IH]; intros h Hh; cbn [fixed_loop]; [reflexivity|].
+  replace (0 <? h)%Z with true by lia. replace (Z.max (h - Z.of_N 0) 0) with h by lia.
+  rewrite IH by exact Hh. reflexivity.
+Qed.
+
+Theorem fixed_K0_diverges x : 1 <= x -> decompose (Fixed 0) x = OutOfFuel.
+Proof.
+  intros Hx. cbn [decompose]. unfold fixed_decompose. rewrite fixed_loop_K0; [reflexivity|].
+  rewrite bitlen_int_eq. pose proof (size_pos x ltac:(lia)). lia.
+Qed.
+
+Lemma scan_up_above x : forall fuel l, (Z.of_N (N.size x) <= l)%Z -> scan_up fuel x l = OutOfFuel.
+Proof.
+  induction fuel as [|f IH]; intros l Hl; cbn [scan_up]; [reflexivity|].
+  rewrite bit_eq by lia. rewrite bit_above_size by lia. apply IH. lia.
+Qed.
+
+Lemma top_bit x : 1 <= x -> N.testbit x (N.size x - 1) = true.
+Proof.
+  intros Hx. rewrite N.size_log2 by lia. replace (N.succ (N.log2 x) - 1) with (N.log2 x) by lia.
+  apply N.bit_log2. lia.
+Qed.
+
+Theorem sliding_K0_diverges x : 1 <= x -> decompose (Sliding 0) x = OutOfFuel.
+Proof.
+  intros Hx. cbn [decompose]. unfold sliding_decompose. rewrite fuel_of_eq at 1. cbn [sliding_loop].
+  rewrite bitlen_int_eq. pose proof (size_pos x ltac:(lia)) as Hs.
+  replace (0 <=? Z.of_N (N.size x) - 1)%Z with true by lia.
+  assert (F : find_one x (Z.of_N (N.size x) - 1) = (Z.of_N (N.size x) - 1)%Z).
+  { unfold find_one. replace (Z.to_nat (Z.of_N (N.size x) - 1 + 1)) with (S (N.to_nat (N.size x) - 1)) by lia.
+    cbn [find_one_steps]. rewrite bit_eq by lia.
+    replace (Z.to_N (Z.of_N (N.size x) - 1)) with (N.size x - 1) by lia.
+    rewrite top_bit by exact Hx. cbn [negb]. now rewrite andb_false_r. }
+  rewrite F. replace (Z.of_N (N.size x) - 1 <? 0)%Z with false by lia.
+  rewrite scan_up_above by lia. reflexivity.
+Qed.
+
+(* ------------------------------------------------------------------ *)
+(* Interface used by the dictionary algorithms (C01)                   *)
+(* ------------------------------------------------------------------ *)
+
+Corollary decomp_interface m x : valid_method m ->
+  exists s, decompose m x = Ok s /\ sum_int s = x /\ forall t, In t s -> 1 <= D t.
+Proof.
+  intros H. destruct (decompose_ok m x H) as (s & E1 & [H1 _ H3 _ _]).
+  exists s. repeat split; try assumption. intros t Ht. rewrite Forall_forall in H3.
+  specialize (H3 t Ht). unfold posD in H3. lia.
+Qed.
+
+Corollary runlength_ones T x s : decompose (RunLength T) x = Ok s ->
+  forall t, In t s -> exists l, 1 <= l /\ (T = 0 \/ l <= T) /\ (Z.of_N (D t) = 2 ^ Z.of_N l - 1)%Z.
+Proof.
+  intros Hs t Ht. destruct (decompose_ok (RunLength T) x I) as (s' & E1 & [_ _ H3 _ H5]).
+  rewrite Hs in E1. injection E1 as <-. rewrite Forall_forall in H3, H5.
+  specialize (H3 t Ht). destruct (H5 t Ht) as (w & Hw & HT). unfold posD in H3.
+  exists w. assert (1 <= w).
+  { destruct (N.eq_dec w 0) as [->|]; [|lia]. rewrite Hw in H3. cbn in H3. lia. }
+  split; [assumption|]. split; [lia|].
+  rewrite Hw. pose proof (p2_gt0 w). rewrite N2Z.inj_sub by lia. rewrite N2Z.inj_pow. reflexivity.
+Qed.
+
+(* ------------------------------------------------------------------ *)
+(* The statements of props/C09.v                                       *)
+(* ------------------------------------------------------------------ *)
+
+Lemma decompose_ok_inv m x s : valid_method m -> decompose m x = Ok s -> sum_ok (shape m) x s.
+Proof.
+  intros H Hs. destruct (decompose_ok m x H) as (s' & E1 & Hok). rewrite Hs in E1.
+  injection E1 as <-. exact Hok.
+Qed.
+
+(* fuel adequacy: the entry point returns normally (never OutOfFuel, Err or Panic) *)
+Lemma decomp_returns m x : valid_method m -> exists s, decompose m x = Ok s.
+Proof. intros H. destruct (decompose_ok m x H) as (s & E1 & _). now exists s. Qed.
+
+Lemma decomp_sum m x s : valid_method m -> decompose m x = Ok s -> sum_int s = x.
+Proof. intros H Hs. now destruct (decompose_ok_inv m x s H Hs). Qed.
+
+Lemma decomp_sorted m x s : valid_method m -> decompose m x = Ok s ->
+  StronglySorted (fun a b => E a < E b) s.
+Proof. intros H Hs. now destruct (decompose_ok_inv m x s H Hs). Qed.
+
+Lemma decomp_positive m x s : valid_method m -> decompose m x = Ok s -> Forall (fun t => 0 < D t) s.
+Proof. intros H Hs. now destruct (decompose_ok_inv m x s H Hs). Qed.
+
+Lemma decomp_disjoint m x s : valid_method m -> decompose m x = Ok s ->
+  ForallOrdPairs (fun a b => E a + N.size (D a) <= E b) s.
+Proof. intros H Hs. now destruct (decompose_ok_inv m x s H Hs). Qed.
+
+Lemma decomp_shape m x s : valid_method m -> decompose m x = Ok s -> Forall (shape m) s.
+Proof. intros H Hs. now destruct (decompose_ok_inv m x s H Hs). Qed.
+
+Lemma shape_fixed K x s : 1 <= K -> decompose (Fixed K) x = Ok s ->
+  Forall (fun t => N.size (D t) <= K) s.
+Proof. intros H Hs. exact (decomp_shape (Fixed K) x s H Hs). Qed.
+
+Lemma shape_sliding K x s : 1 <= K -> decompose (Sliding K) x = Ok s ->
+  Forall (fun t => N.odd (D t) = true /\ N.size (D t) <= K) s.
+Proof. intros H Hs. exact (decomp_shape (Sliding K) x s H Hs). Qed.
+
+Lemma shape_runlength T x s : decompose (RunLength T) x = Ok s ->
+  Forall (fun t => exists w, D t = 2 ^ w - 1 /\ (0 < T -> w <= T)) s.
+Proof. intros Hs. exact (decomp_shape (RunLength T) x s I Hs). Qed.
+
+Lemma shape_hybrid K T x s : 1 <= K -> decompose (Hybrid K T) x = Ok s ->
+  Forall (fun t => N.odd (D t) = true /\
+                   (N.size (D t) <= K \/ exists w, D t = 2 ^ w - 1 /\ K < w /\ (0 < T -> w <= T))) s.
+Proof. intros H Hs. exact (decomp_shape (Hybrid K T) x s H Hs). Qed.
+
+Lemma sort_slice_justified m x s s' : valid_method m -> decompose m x = Ok s ->
+  Permutation s s' -> StronglySorted (fun a b => E a < E b) s' -> s' = s.
+Proof. intros H Hs. eapply sort_slice_unique. exact (decompose_ok_inv m x s H Hs). Qed.
